@@ -97,3 +97,28 @@ def run(ctx):
     if prog.has(pu):
         callers = [x for x in prog.rcg.get(pu, ())]
         ctx.ob('C10-D3', pu, 'callers', 'only did_web::resolve*', all('did_web::resolve' in x for x in callers), detail=str(callers))
+
+    # ---- D5 TIFF: an allocation sized by an IFD entry's value_count is made only after that count was checked against the file size
+    # (check_ifd_data_size on the same entry dominates safe_vec); the sibling sites all do, so a site that allocates first is the deviant
+    npair = 0
+    for name in prog.fns():
+        if 'tiff_io' not in name:
+            continue
+        fn = prog.fn(name)
+        chk = [(bi, T.call_term(fn, bi)) for bi, t in fn.calls() if t['fd'].endswith('tiff_io::check_ifd_data_size')]
+        if not chk:
+            continue
+        ctx.analysed(name, len(chk))
+        for bi, t in fn.calls():
+            if not re.search(r'(^|::)safe_vec$', t['fd']):
+                continue
+            tt = T.call_term(fn, bi)
+            vc = set(re.findall(r'([\w.\[\]()]*?value_count)', tt))
+            if not vc:
+                continue
+            npair += 1
+            doms = [c for c in chk if fn.dominates(c[0], bi) and any(v in c[1] for v in vc)]
+            ctx.ob('C10-D5', name, 'safe_vec(entry.value_count ..)', 'preceded by check_ifd_data_size on the same entry (count bounded by the file size before allocating)', bool(doms),
+                   site=loc(t['span']), detail=tt[:100])
+    ctx.floor('TIFF allocations sized by an entry count next to a size check', npair, 7, rule='C10-D5')
+
